@@ -5,7 +5,7 @@
 (* to concretise it (body bytes, reference streams, closed-form lengths).        *)
 EXTENDS HttpFramingDomains, TLC, Json
 
-CONSTANTS Part,       \* "chunk" | "mutant" | "short" | "coding" | "nego" | "big"
+CONSTANTS Part,       \* "chunk" | "mutant" | "short" | "coding" | "nego" | "big" | "misc"
           BigCases    \* set of [n, c] records (bodies too large to build in TLC)
 
 VARIABLE case
@@ -23,6 +23,8 @@ Domain == CASE Part = "chunk" -> ChunkCases(MaxN, MaxC)
             [] Part = "coding" -> CodingCases(Registered)
             [] Part = "nego" -> NegoCases(MaxEntries)
             [] Part = "big" -> BigDomain
+            \* several small domains in one run (saves JVM starts in the quick tier)
+            [] Part = "misc" -> MutantCases(MutN, MutC) \cup ShortCases(ShortLen) \cup CodingCases(Registered) \cup BigDomain
 
 Emit(cs) ==
   CASE cs.kind = "chunk" ->
@@ -46,10 +48,12 @@ ChunkLaw ==
   case.kind = "chunk" =>
     LET b == Body(case.n, case.pat)
         lens == ChunkLens(case.n, case.c)
-    IN /\ \A st \in Styles : LET s == Chunked(b, case.c, st) IN
-                               /\ ValidChunked(s)
-                               /\ Parse(s).finished
-                               /\ Parse(s).body = b
+    IN /\ \A st \in Styles : LET s == Chunked(b, case.c, st)
+                                   P == Parse(s)
+                               IN /\ ValidChunked(s) <=> (P.ok /\ ~P.lenient /\ P.used = Len(s))
+                                  /\ P.ok /\ ~P.lenient /\ P.used = Len(s)
+                                  /\ P.finished
+                                  /\ P.body = b
        /\ Len(Chunked(b, case.c, "plain")) = FramedLen(case.n, case.c)
        /\ Len(lens) = NumChunks(case.n, case.c)
        /\ lens[Len(lens)] = 0
